@@ -30,7 +30,8 @@ ENGINE = 'E2 configuration cross-product (differential vs default call) + E1 edi
 RULE = ('(A) states = (operator, input, strategy tuple, pass); non-trivial = the input has >= 2 data rows on some side '
         'and the strategy differs from the default call; (B) nodes = histories over {edit1, edit2, pass, partial}; '
         'non-trivial = a complete pass that follows an edit')
-ASSUMPTIONS = ['inputs <= 3 rows (unary) / <= 2+2 rows (binary); keys over {None, int, int, str}',
+ASSUMPTIONS = ['inputs <= 3 rows (unary) / <= 2+2 rows (binary); keys over {None, int, int, str}; ragged inputs over the '
+               'row shapes {empty row, key only, short, full, over-long} (skipped where the default call itself raises)',
                'presorted=True only on inputs sorted by the operator-specific key with the reference sorter',
                'histories <= 4 events; edits append a row with a new smallest key / change the key of row 0']
 
@@ -129,6 +130,25 @@ def unary_tables(tier, seed):
     if tier == 'quick':
         for ks in itertools.product(K3, repeat=3):
             out.append((('k', 'v', 'id'),) + tuple((k, 2 - (i % 2), i) for i, k in enumerate(ks)))
+    out.extend(ragged_unary_tables(tier, seed))
+    return out
+
+
+def _shapes(k, i):
+    # an entirely empty row, rows shorter than the header, a full row, an over-long row
+    return [(), (k,), (k, 1 + (i % 2)), (k, 1 + (i % 2), i), (k, 1 + (i % 2), i, 9)]
+
+
+def ragged_unary_tables(tier, seed):
+    """Every table of 1..3 rows over the five row shapes (keys collide: first and last row share a key)."""
+    r = spaces.reps(seed)
+    keys = [r['i2'], r['i1'], r['i2']]
+    out = []
+    for n in range(1, 4):
+        for shp in itertools.product(range(5), repeat=n):
+            if all(s_ >= 3 for s_ in shp):
+                continue        # no row short of the header: the rectangular space has those
+            out.append((('k', 'v', 'id'),) + tuple(_shapes(keys[i], i)[s_] for i, s_ in enumerate(shp)))
     return out
 
 
@@ -150,6 +170,26 @@ def binary_tables(kind, tier, seed):
                 ta = (('k', 'v'),) + tuple((k, 1) for k in a)
                 tb = (('k', 'v'),) + tuple((k, 1 + (i % 2)) for i, k in enumerate(b))
                 out.append((ta, tb))
+    # ragged sides: every side of 1..2 rows over {empty row, key-only row, full row} against rectangular partners
+    r = spaces.reps(seed)
+    keys = [r['i2'], r['i1']]
+    partners = [ks for n in range(0, 2 if tier == 'quick' else 3) for ks in itertools.product(Kx, repeat=n)]
+    for n in (1, 2):
+        for shp in itertools.product(range(3), repeat=n):
+            if all(s_ == 2 for s_ in shp):
+                continue
+            for p in partners:
+                for ragged_left in (True, False):
+                    if kind == 's':
+                        rag = (('k', 'v'),) + tuple([(), (keys[i],), (keys[i], 1)][s_] for i, s_ in enumerate(shp))
+                        oth = (('k', 'v'),) + tuple((k, 1) for k in p)
+                    else:
+                        hl, hr = ('k', 'v', 'id'), (('k', 'w', 'rid') if kind == 'j' else ('k', 'v', 'id'))
+                        base = 0 if ragged_left else 10
+                        rag = ((hl if ragged_left else hr),) + tuple(
+                            [(), (keys[i],), (keys[i], 1 + (i % 2), base + i)][s_] for i, s_ in enumerate(shp))
+                        oth = _side(p, hr if ragged_left else hl, 10 if ragged_left else 0)
+                    out.append((rag, oth) if ragged_left else (oth, rag))
     return out
 
 
@@ -202,7 +242,7 @@ def run_variant(op, tables, kw, cfg, passes=2):
         try:
             res.append([freeze(r) for r in view])
         except Exception as e:
-            res.append(('exc', type(e).__name__, str(e)[:80]))
+            res.append(('exc', type(e).__name__, env.excmsg(e)))
     return res
 
 
@@ -249,6 +289,14 @@ class HistHarness(object):
         self.i1, self.i2, self.s1 = r['i1'], r['i2'], r['s1']
 
     def _sources(self):
+        srcs = self._full_sources()
+        if self.cfg.get('start') == 'empty':
+            # every source starts header-only: the first completed pass is a pass over an empty table
+            for s_ in srcs:
+                del s_.rows[:]
+        return srcs
+
+    def _full_sources(self):
         i1, i2, s1 = self.i1, self.i2, self.s1
         kind = self.op.kind
         if kind == 'u':
@@ -299,7 +347,11 @@ class HistHarness(object):
                 srcs[0].edit(lambda rows: rows.append(new))
             else:
                 tgt = srcs[-1]
-                tgt.edit(lambda rows: rows.__setitem__(0, (self.s1 + 'z' * n,) + tuple(rows[0][1:])))
+                if tgt.rows:
+                    tgt.edit(lambda rows: rows.__setitem__(0, (self.s1 + 'z' * n,) + tuple(rows[0][1:])))
+                else:
+                    width = len(tgt.header)
+                    tgt.edit(lambda rows: rows.append((self.s1 + 'z' * n,) + tuple([5, 200 + n][:width - 1])))
             w['versions'].append(tuple(s.snapshot() for s in srcs))
             w['last'] = None
             w['after_edit'] = True
@@ -308,6 +360,8 @@ class HistHarness(object):
             srcs[0].arm()       # the next iterator over source 1 raises at its last data row, once
             return ('armed',)
         before = [s.pulls for s in srcs]
+        # a source none of whose iterators was ever driven past its header has no completed read to replay
+        hdr_only = [s.pulls <= s.iters for s in srcs]
         armed_before = srcs[0].armed is not None
         try:
             if ev == 'pass':
@@ -324,8 +378,9 @@ class HistHarness(object):
                 del it
                 obs = ('prefix', tuple(got))
         except Exception as e:
-            obs = ('exc', type(e).__name__, str(e)[:80])
+            obs = ('exc', type(e).__name__, env.excmsg(e))
         pulled = sum(s.pulls for s in srcs) - sum(before)
+        w['excess'] = sum(max(0, (s.pulls - b) - (1 if h else 0)) for s, b, h in zip(srcs, before, hdr_only))
         w['injected'] = armed_before and srcs[0].armed is None    # this pass consumed the armed failure
         w['last'] = (ev, pulled)
         return obs + (('pulled', pulled),)
@@ -352,7 +407,9 @@ class HistHarness(object):
         if w['R'] is not None:
             if rows != w['R']:
                 return (w['R'], rows, 'cache=True pass after a completed pass differs from it')
-            if pulled != 0:
+            if w['excess'] != 0:
+                # (reading the header of a source whose rows no pass ever needed - the other side was empty - is
+                # not reading it AGAIN: its sort never completed, there is nothing to replay)
                 return (0, pulled, 'cache=True pass after a completed pass read the sources again')
             return None
         allowed = [self.fresh(v) for v in w['versions']]
@@ -430,6 +487,8 @@ def items(tier, seed):
         for cache in (True, False):
             for b in (None, 1):
                 out.append({'part': 'B', 'op': name, 'cache': cache, 'b': b, 'depth': depth, 'seed': seed})
+                out.append({'part': 'B', 'op': name, 'cache': cache, 'b': b, 'depth': depth, 'seed': seed,
+                            'start': 'empty'})
     k = seed % len(out)
     return out[k:] + out[:k]
 
@@ -442,6 +501,8 @@ def bounds(tier, seed):
     return {'operators': list(OPS), 'unary_tables': len(unary_tables(tier, seed)),
             'binary_pairs': len(binary_tables('j', tier, seed)),
             'strategy_tuples_per_input(n=2)': len(strategies(OPS['join'], 2, '/x')),
+            'ragged_unary_tables': len(ragged_unary_tables(tier, seed)),
+            'history_starts': ['sources with rows', 'header-only sources'],
             'history_depth': 3 if tier == 'quick' else 4, 'history_alphabet': list(HistHarness.EVENTS) + ['(arm = next pass over source 1 fails once at its last row)']}
 
 
